@@ -69,9 +69,9 @@ def check_clone(inp):
                     type(x).__name__, fm.structure(x)))
             if type(x) is not type(_node_like(a, c, x)):
                 return Failure('clone', inp, 'same classes', 'class differs')
-        for x in fm.all_nodes(c):
-            if fm.module_lang(x) != logic:
-                return Failure('clone', inp, 'clone nodes of logic %s' % logic, type(x).__module__)
+        bad = fm.foreign_node(c, logic)
+        if bad:
+            return Failure('clone', inp, 'a clone of logic %s' % logic, bad)
         # the children lists are distinct mutable lists as well
         la = [x.subformulas() for x in fm.all_nodes(a) if x.subformulas()]
         lc = [x.subformulas() for x in fm.all_nodes(c) if x.subformulas()]
